@@ -335,6 +335,124 @@ Proof.
   now rewrite canon_same.
 Qed.
 
+(* ================================================================ the converse: git lists it, modes of at most 7 digits *)
+Lemma get_mode_go_inv s : forall acc seen mt v rest,
+  get_mode_go s acc seen = Some (mt, v, rest) ->
+  exists d, s = d ++ 32 :: rest /\ mt = rev seen ++ d /\ forallb is_octal d = true /\
+            ((acc + 1) * 8 ^ N.of_nat (List.length d) <= 2 ^ 32 -> v = octal_val d acc).
+Proof.
+  induction s as [|c s IH]; intros acc seen mt v rest H; cbn [get_mode_go] in H; [discriminate|].
+  destruct (c =? 32) eqn:E.
+  - injection H as <- <- <-. apply N.eqb_eq in E. subst. exists []. cbn. rewrite app_nil_r. auto.
+  - destruct (is_octal c) eqn:O; [|discriminate].
+    apply IH in H as (d & -> & -> & Hd & Hv). exists (c :: d). repeat split.
+    + cbn [rev]. now rewrite <- app_assoc.
+    + cbn [forallb]. now rewrite O, Hd.
+    + intros B. cbn [List.length] in B. rewrite Nat2N.inj_succ, N.pow_succ_r' in B. cbn [octal_val].
+      assert (P : 0 < 8 ^ N.of_nat (List.length d)) by (apply N.neq_0_lt_0, N.pow_nonzero; lia).
+      assert (Hsmall : 8 * acc + (c - 48) < 2 ^ 32) by (unfold is_octal in O; nia).
+      rewrite N.mod_small in Hv by exact Hsmall. apply Hv. unfold is_octal in O. nia.
+Qed.
+
+Lemma get_mode_inv s mt v rest : get_mode s = Some (mt, v, rest) ->
+  s = mt ++ 32 :: rest /\ forallb is_octal mt = true /\ mt <> [] /\
+  ((List.length mt <= 7)%nat -> v = octal_val mt 0).
+Proof.
+  unfold get_mode. intros H.
+  assert (H' : get_mode_go s 0 [] = Some (mt, v, rest) /\ (forall r, s <> 32 :: r)).
+  { destruct s as [|c s']; [discriminate|]. destruct (c =? 32) eqn:E.
+    - apply N.eqb_eq in E. subst. discriminate.
+    - split; [|intros r [= -> _]; discriminate].
+      destruct c as [|p]; [exact H|].
+      destruct p as [p|p|]; try exact H; destruct p as [p|p|]; try exact H; destruct p as [p|p|]; try exact H;
+        destruct p as [p|p|]; try exact H; destruct p as [p|p|]; try exact H; destruct p as [p|p|]; try exact H.
+      cbn in E. discriminate. }
+  destruct H' as [H' Hne]. apply get_mode_go_inv in H' as (d & -> & -> & Hd & Hv). cbn [rev app].
+  repeat split; auto.
+  - intros ->. now apply (Hne rest).
+  - intros L. apply Hv.
+    assert (8 ^ N.of_nat (List.length d) <= 8 ^ 7) by (apply N.pow_le_mono_r; lia).
+    change (8 ^ 7) with 2097152 in *. change (2 ^ 32) with 4294967296. lia.
+Qed.
+
+Definition short_modes (rs : list rawent) : bool := forallb (fun r => Nat.leb (List.length (r_mtext r)) 7) rs.
+
+Lemma git_parse_go_inv : forall fuel b acc l,
+  git_parse_go fuel 20 b acc = (None, l) ->
+  exists rs, b = concat (map raw_bytes rs) /\ l = rev acc ++ rs /\
+             Forall (fun r => forallb is_octal (r_mtext r) = true /\ r_mtext r <> [] /\ r_name r <> [] /\
+                              tlacks 0 (r_name r) = true /\ List.length (r_oid r) = 20%nat /\
+                              ((List.length (r_mtext r) <= 7)%nat -> r_mode r = Z.of_N (octal_val (r_mtext r) 0))) rs.
+Proof.
+  induction fuel as [|f IH]; intros b acc l H.
+  - destruct b; cbn [git_parse_go] in H; [|discriminate]. injection H as <-. exists []. cbn. now rewrite app_nil_r.
+  - destruct b as [|x b']; cbn [git_parse_go] in H.
+    { injection H as <-. exists []. cbn. now rewrite app_nil_r. }
+    set (b := x :: b') in *.
+    destruct (Nat.ltb (List.length b) (20 + 3)); [discriminate|].
+    destruct (negb (nth (List.length b - (20 + 1)) b 1 =? 0)); [discriminate|].
+    destruct (get_mode b) as [[[mt v] path]|] eqn:GM; [|discriminate].
+    destruct (tcut 0 path) as [[name rest]|] eqn:C; [|discriminate].
+    destruct name as [|c n] eqn:N; [discriminate|]. rewrite <- N in *.
+    destruct (Nat.ltb (List.length rest) 20) eqn:L; [discriminate|]. apply Nat.ltb_ge in L.
+    apply IH in H as (rs & Hb & Hl & Hall).
+    destruct (get_mode_inv _ _ _ _ GM) as (E1 & Oct & Ne & Val).
+    destruct (tcut_inv _ _ _ _ C) as [E2 Hnul].
+    destruct (firstn_skipn_len rest 20 L) as [Hlen Hsplit].
+    exists (mkR mt (Z.of_N v) name (firstn 20 rest) :: rs). repeat split.
+    + cbn [map concat]. unfold raw_bytes at 1. cbn [r_mtext r_name r_oid]. rewrite <- Hb, E1, E2. norm. now rewrite <- Hsplit.
+    + rewrite Hl. cbn [rev]. now norm.
+    + constructor; [|exact Hall]. cbn [r_mtext r_mode r_name r_oid]. repeat split; auto.
+      * rewrite N. discriminate.
+      * intros K. now rewrite (Val K).
+Qed.
+
+Lemma decode_wf rs : forall fuel acc,
+  Forall wfraw rs -> (List.length (concat (map raw_bytes rs)) < fuel)%nat ->
+  decode_go fuel 20 (concat (map raw_bytes rs)) acc = inr (rev acc ++ map raw_canon rs).
+Proof.
+  induction rs as [|r rs IH]; intros fuel acc Hwf Hfuel.
+  - destruct fuel; cbn [map concat decode_go]; now rewrite app_nil_r.
+  - inversion Hwf as [|? ? W Hwf']; subst. destruct W as [Wm Wn Wz Wo].
+    destruct (mode_of_bytes_octal _ _ Wm) as (Oct & Len & Val).
+    destruct fuel as [|f]; [lia|].
+    assert (Hfuel' : (List.length (concat (map raw_bytes rs)) < f)%nat).
+    { clear -Hfuel. cbn [map concat] in Hfuel. unfold raw_bytes at 1 in Hfuel. rewrite !app_length in Hfuel.
+      cbn [List.length] in Hfuel. rewrite !app_length in Hfuel. cbn [List.length] in Hfuel. lia. }
+    assert (SP : tlacks 32 (r_mtext r) = true).
+    { clear -Oct. unfold tlacks. induction (r_mtext r) as [|c l IHl]; [reflexivity|].
+      cbn [forallb] in *. apply andb_true_iff in Oct as [A B]. rewrite (IHl B), andb_true_r. unfold is_octal in A. lia. }
+    cbn [map concat]. unfold raw_bytes at 1. norm. cbn [decode_go].
+    destruct (r_mtext r ++ 32 :: r_name r ++ 0 :: r_oid r ++ concat (map raw_bytes rs)) eqn:E.
+    { destruct (r_mtext r); discriminate. }
+    rewrite <- E. rewrite (tcut_app 32) by exact SP. rewrite Wm. rewrite (tcut_app 0) by exact Wz.
+    destruct (r_name r) as [|c0 n0] eqn:N; [easy|]. rewrite <- N.
+    destruct (firstn_skipn_app (r_oid r) (concat (map raw_bytes rs)) 20 Wo) as [-> ->].
+    assert (L : Nat.ltb (List.length (r_oid r ++ concat (map raw_bytes rs))) 20 = false)
+      by (rewrite app_length, Wo; apply Nat.ltb_ge; lia).
+    rewrite L. rewrite N. rewrite <- N.
+    rewrite IH by assumption. cbn [rev map]. unfold raw_canon at 2. now norm.
+Qed.
+
+Lemma git_is_decode b es :
+  match git_parse 20 b with inr rs => short_modes rs | inl _ => true end = true ->
+  git_ls_tree 20 b = inr es -> decode 20 b = inr es.
+Proof.
+  unfold git_ls_tree, git_parse, git_parse_partial. intros Hs.
+  destruct (git_parse_go (S (List.length b)) 20 b []) as [[e|] l] eqn:G; [discriminate|].
+  intros [= <-]. apply git_parse_go_inv in G as (rs & -> & -> & Hall). cbn [rev app] in *.
+  assert (Hwf : Forall wfraw rs).
+  { unfold short_modes in Hs. rewrite forallb_forall in Hs. rewrite Forall_forall in Hall |- *.
+    intros r Hr. destruct (Hall r Hr) as (Oct & Ne & Nn & Nul & Oid & Val). specialize (Hs r Hr).
+    apply Nat.leb_le in Hs. constructor; auto.
+    unfold mode_of_bytes.
+    assert (L : (Nat.eqb (List.length (r_mtext r)) 0 || Nat.ltb 7 (List.length (r_mtext r))) = false).
+    { destruct (r_mtext r); [easy|]. cbn [List.length] in *. lia. }
+    now rewrite L, Oct, (Val Hs). }
+  unfold decode. rewrite (decode_wf rs _ [] Hwf (Nat.lt_succ_diag_r _)). cbn [rev app].
+  f_equal. apply map_ext. intros r. unfold raw_canon. now rewrite canon_same.
+Qed.
+
 (* ================================================================ ordering: treeEntrySortName vs verify_ordered *)
 Lemma bgt_app_same p x y : bgt (p ++ x) (p ++ y) = bgt x y.
 Proof. induction p as [|c p IH]; cbn [app bgt]; [reflexivity|]. now rewrite N.eqb_refl. Qed.
